@@ -220,8 +220,8 @@ def run_res(case) -> CaseResult:
 
 CHECK = Check(
     id="C03",
-    parts=[Part("bilinear", run, strategy=cases, budget={"quick": 1500, "thorough": 30000}),
-           Part("residual", run_res, strategy=res_cases, budget={"quick": 300, "thorough": 4000})],
+    parts=[Part("bilinear", run, strategy=cases, budget={"quick": 4000, "thorough": 200000}),
+           Part("residual", run_res, strategy=res_cases, budget={"quick": 800, "thorough": 30000})],
     rule=("bilinear: Hypothesis shapes for linear, linear_readout, matmul (equal/no batch dims), conv1d, add (no single-element "
           "operand), embedding (indices avoiding padding_idx), dropout (training, p in (0,1)), mse_loss, layer/rms-norm gains and "
           "biases, all with constraint None in float64; scalars fitted as in C01/C02, term counts measured by running the "
